@@ -14,6 +14,8 @@ UNITS = ["src/pmem.c"]
 INCLUDED = ["src/ptree.c", "src/ptree-bst.c", "src/ptree-rb.c", "src/ptree-avl.c"]
 TNAME = {0: "bst", 1: "rb", 2: "avl"}
 OPNAME = {0: "insert", 1: "remove", 2: "lookup", 3: "foreach", 4: "clear"}
+CTOR = ["p_tree_new", "p_tree_new_with_data", "p_tree_new_full + key and value notifiers", "p_tree_new_full + key notifier only",
+        "p_tree_new_full + value notifier only", "p_tree_new_full, notifier configuration symbolic"]
 FUNCS = {
     0: ["p_tree_bst_insert", "p_tree_bst_remove", "p_tree_bst_node_free"],
     1: ["p_tree_rb_insert", "p_tree_rb_remove", "pp_tree_rb_balance_insert", "pp_tree_rb_balance_remove",
@@ -58,6 +60,11 @@ def step(prop, tt, h, op, ppos=None, hit=0, newmode=2, remcase=None, extra=(), k
     if remcase is not None:
         defs.append("REMCASE=%d" % remcase)
         tag = "_" + REMNAME(remcase) + tag
+    if "ALLOC_FAIL" in extra:
+        tag += "_allocfail"
+    for e in extra:
+        if e.startswith("NULLTOK="):
+            tag += "_null" + e[8:]
     name = "%s_%s_h%d%s_m%d%s" % (TNAME[tt], OPNAME[op], h, "_p%02d%s" % (ppos, "hit" if hit else "miss") if ppos is not None else "", newmode, tag)
     us = unwindset(h)
     if ppos is not None and op in (0, 1):
@@ -74,7 +81,7 @@ def step(prop, tt, h, op, ppos=None, hit=0, newmode=2, remcase=None, extra=(), k
              funcs=COMMON_FUNCS + FUNCS[tt],
              bounds={"tree_type": TNAME[tt], "pre_state": "every valid tree of height <= %d (<= %d nodes), shape/colours/balance symbolic" % (h, n),
                      "operation": OPNAME[op], "search_ends_at": ("skeleton position %d (%s)" % (ppos, "key stored there" if hit else "NULL link, key absent")) if ppos is not None else "symbolic",
-                     "constructor": ["p_tree_new", "p_tree_new_with_data", "p_tree_new_full+notifiers"][newmode]},
+                     "constructor": CTOR[newmode]},
              timeout=timeout)
 
 
@@ -112,7 +119,7 @@ def hist(prop, tt, nops, newmode=2, extra=(), timeout=1500, u=None, tag=""):
     return Q("%s_hist%d_m%d%s" % (TNAME[tt], nops, newmode, tag), "harness/%s_hist.c" % prop, units=UNITS, models=MODELS, defs=defs,
              unwind=max(u, nops) + 3, unwindset=us, funcs=COMMON_FUNCS + FUNCS[tt],
              bounds={"tree_type": TNAME[tt], "history": "%d symbolic insert/remove calls from the empty tree, public API only" % nops,
-                     "key_universe": u, "constructor": ["p_tree_new", "p_tree_new_with_data", "p_tree_new_full+notifiers"][newmode]},
+                     "key_universe": u, "constructor": CTOR[newmode]},
              timeout=timeout)
 
 
@@ -123,6 +130,7 @@ def thorough_h4(prop, extra=(), newmode=None, types=(0, 1, 2), skip_two_child=Fa
     for tt in types:
         for p in insert_new_cases(h):
             qs.append(step(prop, tt, h, 0, p, 0, newmode=p % 2 if newmode is None else newmode, extra=extra, timeout=1800))
+            qs.append(step(prop, tt, h, 0, p, 0, newmode=(p + 1) % 2 if newmode is None else newmode, extra=list(extra) + ["ALLOC_FAIL"], timeout=1800))
         for p in hit_cases(h):
             qs.append(step(prop, tt, h, 0, p, 1, newmode=(p + 1) % 2 if newmode is None else newmode, extra=extra, timeout=1800))
             for rc in remcases(h, p):
@@ -139,7 +147,7 @@ def quick_h4_removals(prop, extra=(), newmode=1, types=(1, 2)):
     return [step(prop, tt, 4, 1, p, 1, newmode=newmode, remcase=0, extra=extra, timeout=901) for tt in types for p in (4, 7)]
 
 
-def avl_hist(prop, newmode, tier, extra=()):
+def avl_hist(prop, newmode, tier, extra=()):   # extra NULLTOK=r: the first inserted pair, if of rank r, is (NULL, NULL)
     """AVL from-empty histories: fully symbolic AVL histories are out of reach for CBMC (3 symbolic inserts: 135 s / 3.7 GB, see lessons), so
     a prefix of inserts with runner-chosen key order is fixed and the LAST call (kind and key) is symbolic."""
     qs = [hist(prop, 2, 3, newmode, extra=["NFIX=2", "KEYSEQ=%s" % ks] + dup + list(extra), u=5, tag="_" + ks.replace(",", ""))
